@@ -33,6 +33,10 @@ def main(tier):
     events = []
     n = 0
     try:
+        # a history before everything else: amounts of the 'Unknown' quantity type read in every unit of the table (legal, returns the amount unchanged)
+        unk0 = Scalar(ObtainQuantity("<unknown>", "Unknown"), 3.0)
+        for row in proj["rows"]:
+            P.outcome(unk0.GetValue, row["unit"])
         # (1) the matrix TLC predicted, for Scalars and FractionScalars
         for row in g["matrix"]:
             a, b = row["a"], row["b"]
@@ -148,6 +152,7 @@ def main(tier):
                 FixedArray(2, [1.0, 2.0], "m"), FixedArray(2, (1.0, 2.0), "m"), FixedArray(3, numpy.array([1.0, 2.0, 3.0]), "m"), FixedArray(2, numpy.array([1.0, 2.0]), "m"),
                 FractionScalar("length", value=FractionValue(1, Fraction(1, 2)), unit="m"), FractionScalar("length", value=1.0, unit="m"),
                 FractionValue(1, Fraction(1, 2)), FractionValue(1.0), Fraction(1, 2), Fraction(2, 4), Fraction(3),
+                FractionValue(0.5), FractionValue(0, Fraction(1, 2)), Fraction(3, 2), FractionValue(3), Fraction(1), 0.5, 1.5,
                 Curve(Array([1.0, 2.0], "m"), Array([0.0, 1.0], "s")), Curve(Array(numpy.array([1.0, 2.0]), "m"), Array(numpy.array([0.0, 1.0]), "s")),
                 Curve(Array([1.0, 2.0, 3.0], "m"), Array([0.0, 1.0, 2.0], "s")),
                 UnitSystem("a", "A", {"length": "m"}), UnitSystem("a", "A", {"length": "m"}), UnitSystem("b", "B", {}),
@@ -176,4 +181,4 @@ def main(tier):
                         "unrelated right-hand sides: None, str, int, float, tuple (numpy arrays own ndarray == x)"]
     return rep.finish(rule="(1) 11 x 11 pool matrix predicted by TLC x 4 order operators x Scalar/FractionScalar; (2) seeded unit pairs of every quantity "
                            "type x two amounts, six operator results judged by TLC against the measured sign of the base-unit difference; ordering across "
-                           "quantity types; (3) ==/!= over all ordered pairs of %d value objects / unrelated objects, judged by TLC" % 45)
+                           "quantity types; (3) ==/!= over all ordered pairs of %d value objects / unrelated objects, judged by TLC" % 52)
